@@ -50,6 +50,8 @@ def kind_of(v):
             return 'b'
         if s == z3.Z3_INT_SORT:
             return 'i'
+        if s == z3.Z3_FLOATING_POINT_SORT:
+            return 'f'
         return 'r'
     if isinstance(v, (bool, np.bool_)):
         return 'b'
@@ -58,7 +60,9 @@ def kind_of(v):
     return 'r'
 
 
-_ORDER = 'bir'
+_ORDER = 'birf'
+F32 = z3.Float32()
+RNE = z3.RNE()
 
 
 def join_kind(a, b):
@@ -69,8 +73,25 @@ def lift(v, kind='r'):
     """python or z3 value -> z3 value of the given kind"""
     if isinstance(v, SymScalar):
         v = v.t
+    if kind == 'f':
+        if is_sym(v):
+            k = kind_of(v)
+            if k == 'f':
+                return v
+            if k == 'b':
+                return z3.If(v, z3.FPVal(1.0, F32), z3.FPVal(0.0, F32))
+            if k == 'i':
+                v = z3.ToReal(v)
+            return z3.fpToFP(RNE, v, F32)
+        if isinstance(v, float) and math.isinf(v):
+            return z3.fpPlusInfinity(F32) if v > 0 else z3.fpMinusInfinity(F32)
+        return z3.FPVal(float(np.float32(float(v))), F32)
     if is_sym(v):
         k = kind_of(v)
+        if k == 'f':
+            if kind == 'r':
+                return z3.fpToReal(v)
+            raise EngineError("float32 term used as bool/int")
         if kind == 'r':
             if k == 'i':
                 return z3.ToReal(v)
@@ -124,10 +145,16 @@ def _num(k):
     return 'i' if k == 'b' else k
 
 
+def _fp(a, b=None):
+    return (is_sym(a) and kind_of(a) == 'f') or (b is not None and is_sym(b) and kind_of(b) == 'f')
+
+
 def e_add(a, b):
     sa, sb = is_sym(a), is_sym(b)
     if not sa and not sb:
         return a + b
+    if _fp(a, b):
+        return z3.fpAdd(RNE, lift(a, 'f'), lift(b, 'f'))
     if not sa and a == 0:
         return lift(b, _num(kind_of(b))) if kind_of(b) == 'b' else b
     if not sb and b == 0:
@@ -139,12 +166,16 @@ def e_add(a, b):
 def e_neg(a):
     if not is_sym(a):
         return -a
+    if _fp(a):
+        return z3.fpNeg(a)
     return -lift(a, _num(kind_of(a)))
 
 
 def e_sub(a, b):
     if not is_sym(a) and not is_sym(b):
         return a - b
+    if _fp(a, b):
+        return z3.fpSub(RNE, lift(a, 'f'), lift(b, 'f'))
     if not is_sym(b) and b == 0:
         return a
     k = _num(join_kind(a, b))
@@ -155,6 +186,8 @@ def e_mul(a, b):
     sa, sb = is_sym(a), is_sym(b)
     if not sa and not sb:
         return a * b
+    if _fp(a, b):
+        return z3.fpMul(RNE, lift(a, 'f'), lift(b, 'f'))
     for x, y in ((a, b), (b, a)):
         if not is_sym(x):
             if x == 0:
@@ -169,6 +202,8 @@ def e_mul(a, b):
 
 def e_div(a, b):
     """true division; a symbolic denominator registers a division guard (den == 0 is 'poison')"""
+    if _fp(a, b):
+        return z3.fpDiv(RNE, lift(a, 'f'), lift(b, 'f'))
     if not is_sym(a) and not is_sym(b):
         if b == 0:
             if a == 0:
@@ -210,6 +245,8 @@ def _poison(why):
 def e_abs(a):
     if not is_sym(a):
         return abs(a)
+    if _fp(a):
+        return z3.fpAbs(a)
     a = lift(a, _num(kind_of(a)))
     return z3.If(a >= 0, a, -a)
 
@@ -231,6 +268,9 @@ def e_cmp(op):
             return {'gt': not pos, 'ge': not pos, 'lt': pos, 'le': pos, 'eq': False, 'ne': True}[op]
         if not is_sym(a) and not is_sym(b):
             return bool(_CMP[op](a, b))
+        if _fp(a, b):
+            x, y = lift(a, 'f'), lift(b, 'f')
+            return {'gt': z3.fpGT, 'ge': z3.fpGEQ, 'lt': z3.fpLT, 'le': z3.fpLEQ, 'eq': z3.fpEQ, 'ne': z3.fpNEQ}[op](x, y)
         k = join_kind(a, b)
         if k == 'b':
             if op == 'eq':
@@ -286,6 +326,8 @@ def e_floor(a):
         if _isinf(a):
             return a
         return Fraction(math.floor(a)) if kind_of(a) == 'r' else a
+    if kind_of(a) == 'f':
+        return z3.fpRoundToIntegral(z3.RTN(), a)
     if kind_of(a) != 'r':
         return a
     return z3.ToReal(_to_int(a))
@@ -296,6 +338,8 @@ def e_ceil(a):
         if _isinf(a):
             return a
         return Fraction(math.ceil(a)) if kind_of(a) == 'r' else a
+    if kind_of(a) == 'f':
+        return z3.fpRoundToIntegral(z3.RTP(), a)
     if kind_of(a) != 'r':
         return a
     return -z3.ToReal(_to_int(-a))
@@ -315,6 +359,8 @@ def e_round(a):
         if kind_of(a) != 'r':
             return a
         return Fraction(round(Fraction(a)))
+    if kind_of(a) == 'f':
+        return z3.fpRoundToIntegral(RNE, a)
     if kind_of(a) != 'r':
         return a
     f = z3.ToInt(a)
@@ -343,6 +389,37 @@ def e_floordiv(a, b):
 def e_mod(a, b):
     """python / torch.remainder semantics: result has the sign of the divisor"""
     return e_sub(a, e_mul(b, e_floordiv(a, b)))
+
+
+def _syn_integral(t):
+    """sound syntactic test: the real-sorted term denotes an integer on every interpretation"""
+    k = t.decl().kind()
+    if z3.is_int(t):
+        return True
+    if z3.is_rational_value(t):
+        return t.denominator_as_long() == 1
+    if k == z3.Z3_OP_TO_REAL:
+        return True
+    if k == z3.Z3_OP_ITE:
+        return _syn_integral(t.arg(1)) and _syn_integral(t.arg(2))
+    if k in (z3.Z3_OP_ADD, z3.Z3_OP_SUB, z3.Z3_OP_MUL, z3.Z3_OP_UMINUS):
+        return all(_syn_integral(c) for c in t.children())
+    return False
+
+
+def e_not_integral(v):
+    """formula that is satisfiable iff v is not an integer (False when v is syntactically integral)"""
+    if not is_sym(v):
+        if _isinf(v):
+            return True
+        return Fraction(v).denominator != 1
+    if kind_of(v) in ('i', 'b'):
+        return False
+    if kind_of(v) == 'f':
+        return z3.Not(z3.fpEQ(v, z3.fpRoundToIntegral(z3.RTZ(), v)))
+    if _syn_integral(v):
+        return False
+    return v != z3.ToReal(z3.ToInt(v))
 
 
 def e_not(v):
@@ -479,6 +556,8 @@ def e_cast(v, dtype):
             if _isinf(v):
                 return v
             return Fraction(int(v)) if isinstance(v, (bool, int, np.bool_, np.integer)) else v
+        if kind_of(v) == 'f':
+            return v
         return lift(v, 'r')
     if dtype == torch.bool:
         if not is_sym(v):
@@ -495,6 +574,8 @@ def e_cast(v, dtype):
     if k == 'i':
         return v
     # real -> int: truncation
+    if _syn_integral(v):
+        return z3.ToInt(v)
     return z3.If(v >= 0, z3.ToInt(v), -z3.ToInt(-v))
 
 
@@ -757,6 +838,11 @@ def model_value(m, v):
         v = v.t
     if not is_sym(v):
         return v
+    if kind_of(v) == 'f':
+        if z3.is_true(m.eval(z3.Or(z3.fpIsNaN(v), z3.fpIsInf(v)), model_completion=True)):
+            return float('nan') if z3.is_true(m.eval(z3.fpIsNaN(v), model_completion=True)) else \
+                (float('inf') if z3.is_true(m.eval(z3.fpIsPositive(v), model_completion=True)) else float('-inf'))
+        v = z3.fpToReal(v)
     val = m.eval(v, model_completion=True)
     k = kind_of(val)
     if k == 'b':
@@ -832,6 +918,16 @@ class SymTensor(torch.Tensor):
         return SymTensor.from_array(a.reshape(shape), dtype)
 
     @staticmethod
+    def fresh_fp32(name, shape):
+        """bit-precise float32 elements (z3 FloatingPoint theory)"""
+        shape = tuple(shape)
+        n = int(np.prod(shape)) if len(shape) else 1
+        a = np.empty(n, dtype=object)
+        for i in range(n):
+            a[i] = z3.FP(f"{name}_{i}", F32)
+        return SymTensor.from_array(a.reshape(shape), torch.float32)
+
+    @staticmethod
     def of(t):
         """concrete torch tensor -> SymTensor holding the exact values"""
         if isinstance(t, SymTensor):
@@ -840,6 +936,14 @@ class SymTensor(torch.Tensor):
 
     def elems(self):
         return list(self.arr().reshape(-1))
+
+    def __floor__(self):
+        v = e_floor(to_arr(self).reshape(-1)[0])
+        return SymScalar._w(e_cast(v, torch.int64)) if is_sym(v) else int(v)
+
+    def __ceil__(self):
+        v = e_ceil(to_arr(self).reshape(-1)[0])
+        return SymScalar._w(e_cast(v, torch.int64)) if is_sym(v) else int(v)
 
     @classmethod
     def __torch_dispatch__(cls, func, types, args=(), kwargs=None):
@@ -875,10 +979,27 @@ class SymTensor(torch.Tensor):
             a = to_arr(args[0])
             if any(is_sym(v) for v in a.reshape(-1)):
                 raise EngineError(".numpy() on a symbolic tensor")
+        elif func in _CLAMP_FUNCS:
+            # clamp(x, number, 0-d tensor): the python arg parser would turn the tensor bound into a Scalar via item()
+            a = list(args)
+            kw = dict(kwargs)
+            lo = kw.pop('min', a[1] if len(a) > 1 else None)
+            hi = kw.pop('max', a[2] if len(a) > 2 else None)
+            if isinstance(lo, (torch.Tensor, SymScalar)) or isinstance(hi, (torch.Tensor, SymScalar)):
+                def tt(v):
+                    if v is None or isinstance(v, torch.Tensor):
+                        return v
+                    v = conc(v)
+                    return SymTensor.from_array(np.array(v, dtype=object), a[0].dtype)
+                with torch._C.DisableTorchFunctionSubclass():
+                    return torch.clamp(a[0], min=tt(lo), max=tt(hi), **kw)
         if any(isinstance(a, SymScalar) for a in tree_flatten((args, kwargs))[0]):
             args, kwargs = tree_map(_scalar_to_tensor, (args, kwargs))
         with torch._C.DisableTorchFunctionSubclass():
             return func(*args, **kwargs)
+
+
+_CLAMP_FUNCS = (torch.clamp, torch.Tensor.clamp, torch.clip, torch.Tensor.clip)
 
 
 def _scalar_to_tensor(a):
